@@ -46,6 +46,7 @@ type Witness struct {
 	Harness string     `json:"harness"`
 	Reach   []string   `json:"reach,omitempty"`
 	Outcome string     `json:"outcome"`
+	Log     []string   `json:"log,omitempty"`
 }
 
 type Path struct {
@@ -563,7 +564,7 @@ func (p *Path) makeWitness() {
 	if r != Sat {
 		return
 	}
-	w := Witness{Inputs: p.inputsWithModel(m), Harness: p.harness, Reach: p.reached, Outcome: p.outcome}
+	w := Witness{Inputs: p.inputsWithModel(m), Harness: p.harness, Reach: p.reached, Outcome: p.outcome, Log: append([]string{}, p.log...)}
 	k := 0
 	for _, o := range p.observes {
 		w.Expect = append(w.Expect, o.label+"="+strings.Join(vals[k:k+len(o.terms)], ","))
